@@ -2067,6 +2067,7 @@ type snapPlan struct {
 	qnames  []string              // question names for Matcher.MatchByPrefix and the TXT path
 	probes  []string              // names for Storage.Matches
 	vhosts  []string              // four-label names below which Filter.FilterRequest is asked (verdict plans)
+	narrow  int                   // hash plans: the version that has fewer names than version 0 under every listed prefix (0: none)
 }
 
 // newVerdictPlan: versions of one list in which the hosts asked about have a
@@ -2135,10 +2136,18 @@ func newSnapPlan(seed uint64, fams []family) (p *snapPlan) {
 	}
 
 	nVer := 3 + rng.IntN(5)
+	p.narrow = 1
 	for v := 0; v < nVer; v++ {
 		var lines []string
 		profile := 0
-		if v > 0 {
+		if v == 1 {
+			// Narrower than the widest version under EVERY listed prefix (no
+			// name, one name, all but one or two; no duplicated line): whichever
+			// prefix a lookup is at when this version replaces version 0 or is
+			// replaced by it, the two give different numbers of digests there,
+			// so an answer put together from both is the answer of neither.
+			profile = []int{1, 2, 6}[rng.IntN(3)]
+		} else if v > 0 {
 			profile = 1 + rng.IntN(6)
 		}
 		shrunk := rng.IntN(nFam)
@@ -2163,7 +2172,7 @@ func newSnapPlan(seed uint64, fams []family) (p *snapPlan) {
 				n -= 1 + rng.IntN(2)
 			}
 			lines = append(lines, names[:n]...)
-			if n > 0 && rng.IntN(5) == 0 {
+			if n > 0 && v != 1 && rng.IntN(5) == 0 {
 				lines = append(lines, names[rng.IntN(n)])
 			}
 		}
@@ -2190,6 +2199,9 @@ func newSnapPlan(seed uint64, fams []family) (p *snapPlan) {
 		text := fams[out[0]].names[0] + "\n" + fams[in[0]].names[0] + "\n" + strings.Repeat("a", 65536) + "\n"
 		p.texts = append(p.texts[:at], append([]string{text}, p.texts[at:]...)...)
 		p.bad = append(p.bad[:at], append([]bool{true}, p.bad[at:]...)...)
+		if at <= p.narrow {
+			p.narrow++
+		}
 	}
 	for _, t := range p.texts {
 		set, _ := oracleListed(t)
@@ -2201,6 +2213,11 @@ func newSnapPlan(seed uint64, fams []family) (p *snapPlan) {
 			}
 		}
 		p.listed, p.byPref = append(p.listed, set), append(p.byPref, by)
+	}
+	for _, pr := range prefs {
+		if w, n := len(p.byPref[0][pr]), len(p.byPref[p.narrow][pr]); n >= w || p.bad[p.narrow] {
+			panic(fmt.Sprintf("snapshot plan %d: version %d has %d digests under %s, version 0 has %d", seed, p.narrow, n, pr, w))
+		}
 	}
 	for _, f := range in {
 		for k := 0; k < 2 && len(p.probes) < 24; k++ {
@@ -2372,6 +2389,23 @@ type snapRun struct {
 	overlaps atomic.Int64
 	lookupsN atomic.Int64
 	uniq     atomic.Int64
+	// telling counts, per kind of lookup, the lookups during which the map was
+	// swapped between versions that give different answers to them: the only
+	// ones on which an answer assembled from two versions can show.
+	telling    map[string]*atomic.Int64
+	tellingAll atomic.Int64
+}
+
+// tells reports whether the installs lo..fin, which all returned during one
+// lookup, left versions in force that answer the lookup differently.
+func (s *snapRun) tells(l *snapLookup, lo, fin int64) bool {
+	for k := lo + 1; k <= fin; k++ {
+		if l.multi[s.eff[k]] != l.multi[s.eff[lo]] {
+			return true
+		}
+	}
+
+	return false
 }
 
 func (s *snapRun) find(model bool, sig, what string, input map[string]any) {
@@ -2467,6 +2501,20 @@ func (s *snapRun) check(l *snapLookup, lo, hi int64, ans []string, fault string)
 			inForce = append(inForce, v)
 		}
 	}
+	// The usual case first and cheaply, so that the goroutine spends its time
+	// inside lookups and not here: the answer is that of a version in force.
+	var multi, set string
+	if fault == "" {
+		m := append([]string(nil), ans...)
+		sort.Strings(m)
+		multi = strings.Join(m, " ")
+		for _, v := range inForce {
+			if l.multi[v] == multi {
+				return
+			}
+		}
+		_, set = canonAnswer(m)
+	}
 	sizes := func(vs []int) (o []string) {
 		for _, v := range vs {
 			n := 0
@@ -2520,12 +2568,8 @@ func (s *snapRun) check(l *snapLookup, lo, hi int64, ans []string, fault string)
 
 		return
 	}
-	multi, set := canonAnswer(ans)
 	setOK := false
 	for _, v := range inForce {
-		if l.multi[v] == multi {
-			return
-		}
 		setOK = setOK || l.set[v] == set
 	}
 	if setOK {
@@ -2571,10 +2615,13 @@ func (s *snapRun) check(l *snapLookup, lo, hi int64, ans []string, fault string)
 		": %d answers, which is the answer of none of the versions of the list", len(ans)), input)
 }
 
-// run installs versions until enough lookups have overlapped an install (or
-// maxInstalls is reached), then checks every lookup on the final version.  The
-// number of rounds depends on timing, no verdict does.
-func (s *snapRun) run(install func(text string) error, ls []*snapLookup, rng *rand.Rand, readers, minInstalls, maxInstalls int, wantOverlaps int64) {
+// run installs versions until enough lookups have seen the map swapped between
+// versions that answer them differently (or maxInstalls is reached, or, after
+// minInstalls, the time budget is used up: on a loaded machine the installs
+// are slow and such lookups rare), then checks every lookup on the final
+// version.  The number of rounds depends on timing, no verdict does.
+func (s *snapRun) run(install func(text string) error, ls []*snapLookup, rng *rand.Rand, readers, minInstalls, maxInstalls int, wantOverlaps int64, budget time.Duration) {
+	start := time.Now()
 	ctx := context.Background()
 	nVer := len(s.plan.texts)
 	seq := make([]int, maxInstalls+1)
@@ -2586,12 +2633,22 @@ func (s *snapRun) run(install func(text string) error, ls []*snapLookup, rng *ra
 		if seq[k-1] == 0 || rng.IntN(2) == 0 {
 			v = (seq[k-1] + 1 + rng.IntN(nVer-1)) % nVer
 		}
+		if seq[k-1] == 0 && s.plan.narrow > 0 && rng.IntN(3) == 0 {
+			// The pair of versions that differ under every prefix asked about.
+			v = s.plan.narrow
+		}
 		seq[k], s.eff[k] = v, v
 		if s.plan.bad[v] {
 			s.eff[k] = s.eff[k-1]
 		}
 	}
 	hlib.Must(install(s.plan.texts[0]))
+	s.telling = map[string]*atomic.Int64{}
+	for _, l := range ls {
+		if s.telling[l.kind] == nil {
+			s.telling[l.kind] = &atomic.Int64{}
+		}
+	}
 
 	var done atomic.Bool
 	var wg sync.WaitGroup
@@ -2605,17 +2662,22 @@ func (s *snapRun) run(install func(text string) error, ls []*snapLookup, rng *ra
 				lo := s.finished.Load()
 				ans, fault := s.ask(ctx, l)
 				hi := s.started.Load()
+				fin := s.finished.Load()
 				s.check(l, lo, hi, ans, fault)
 				s.lookupsN.Add(1)
-				if s.finished.Load() > lo {
+				if fin > lo {
 					// An install returned, so the map was swapped, during the call.
 					s.overlaps.Add(1)
+					if s.tells(l, lo, fin) {
+						s.telling[l.kind].Add(1)
+						s.tellingAll.Add(1)
+					}
 				}
 			}
 		}()
 	}
 	k := 1
-	for ; k <= maxInstalls && (k <= minInstalls || s.overlaps.Load() < wantOverlaps); k++ {
+	for ; k <= maxInstalls && (k <= minInstalls || (s.tellingAll.Load() < wantOverlaps && time.Since(start) < budget)); k++ {
 		s.started.Store(int64(k))
 		err := install(s.plan.texts[seq[k]])
 		s.finished.Store(int64(k))
@@ -2635,6 +2697,9 @@ func (s *snapRun) run(install func(text string) error, ls []*snapLookup, rng *ra
 	s.res.Counts["snap."+s.phase+".installs"] += k - 1
 	s.res.Counts["snap."+s.phase+".lookups"] += int(s.lookupsN.Load())
 	s.res.Counts["snap."+s.phase+".lookups_overlapping_an_install"] += int(s.overlaps.Load())
+	for kind, n := range s.telling {
+		s.res.Counts["snap."+s.phase+".overlapping_versions_with_different_answers:"+kind] += int(n.Load())
+	}
 	s.mu.Unlock()
 }
 
@@ -2655,22 +2720,24 @@ func snapChild() {
 	defer func() { _ = os.RemoveAll(dir) }()
 	e := newEnv(dir, txtSuffixes, []int{0, 1})
 	res := &snapResult{Counts: map[string]int{}}
+	res.Counts["snap.plan.version_narrower_under_every_prefix"]++
 	rng := rand.New(rand.NewPCG(seed, 0x5eed))
 	ctx := context.Background()
+	sec := func(x float64) time.Duration { return time.Duration(x * float64(scale) * float64(time.Second)) }
 
 	s1 := &snapRun{e: e, plan: plan, res: res, phase: "reset"}
 	s1.run(func(text string) error {
 		_, rerr := e.strg[0].Reset(text)
 
 		return rerr
-	}, plan.lookups("hashes", "hashes", "mbp", "matches"), rng, 4, 300*scale, 3000*scale, int64(2000*scale))
+	}, plan.lookups("hashes", "hashes", "mbp", "matches"), rng, 4, 300*scale, 3000*scale, int64(2000*scale), sec(2))
 
 	s2 := &snapRun{e: e, plan: plan, res: res, phase: "refresh"}
 	s2.run(func(text string) error {
 		hlib.Must(os.WriteFile(e.paths[0], []byte(text), 0o600))
 
 		return e.flt[0].Refresh(ctx)
-	}, plan.lookups("txt", "txt", "mbp", "hashes"), rng, 4, 60*scale, 400*scale, int64(300*scale))
+	}, plan.lookups("txt", "txt", "mbp", "hashes"), rng, 4, 60*scale, 400*scale, int64(300*scale), sec(1.5))
 
 	// Verdicts: Filter.FilterRequest on hosts that have a listed parent under
 	// every version, while the versions take turns.
@@ -2680,13 +2747,13 @@ func snapChild() {
 		_, rerr := e.strg[0].Reset(text)
 
 		return rerr
-	}, vplan.lookups("verdict"), rng, 4, 2000*scale, 30000*scale, int64(4000*scale))
+	}, vplan.lookups("verdict"), rng, 4, 2000*scale, 30000*scale, int64(4000*scale), sec(1.5))
 	s4 := &snapRun{e: e, plan: vplan, res: res, phase: "verdict-refresh"}
 	s4.run(func(text string) error {
 		hlib.Must(os.WriteFile(e.paths[0], []byte(text), 0o600))
 
 		return e.flt[0].Refresh(ctx)
-	}, vplan.lookups("verdict"), rng, 4, 60*scale, 600*scale, int64(300*scale))
+	}, vplan.lookups("verdict"), rng, 4, 60*scale, 600*scale, int64(300*scale), sec(1))
 
 	out, err := json.Marshal(res)
 	hlib.Must(err)
@@ -2697,15 +2764,22 @@ func snapChild() {
 // numbers of processors (with one, a lookup is interrupted in mid-call by the
 // scheduler and resumes many installs later), and puts the versions and
 // questions of every plan through the sequential operations as well, where the
-// real code is compared with the model.
+// real code is compared with the model.  Up to four children run at a time,
+// next to the sequential work of this process: on a machine that is busy
+// anyway that is what lookups and installs meet in production, and the wall
+// time stays bounded.
 func snapshotCampaign(c *runner, rng *rand.Rand, procs, scale int, modelBudget int) {
 	fams := bucketFamilies(400000, 8)
+	type childRun struct {
+		env  string
+		out  []byte
+		err  error
+		done chan struct{}
+	}
+	runs := make([]*childRun, procs)
+	slots := make(chan struct{}, 4)
 	for p := 0; p < procs; p++ {
 		seed := rng.Uint64()
-		plan := newSnapPlan(seed, fams)
-		snapSequential(c, plan, &modelBudget)
-		verdictSequential(c, newVerdictPlan(seed))
-
 		childEnv := fmt.Sprintf("VERIF_C11_SNAP=%d %d", seed, scale)
 		gmp := []string{"", "2", "1", "4"}[p%4]
 		cmd := exec.Command(os.Args[0])
@@ -2714,7 +2788,22 @@ func snapshotCampaign(c *runner, rng *rand.Rand, procs, scale int, modelBudget i
 			cmd.Env = append(cmd.Env, "GOMAXPROCS="+gmp)
 			childEnv += " GOMAXPROCS=" + gmp
 		}
-		out, err := cmd.CombinedOutput()
+		cr := &childRun{env: childEnv, done: make(chan struct{})}
+		runs[p] = cr
+		go func() {
+			slots <- struct{}{}
+			cr.out, cr.err = cmd.CombinedOutput()
+			<-slots
+			close(cr.done)
+		}()
+
+		plan := newSnapPlan(seed, fams)
+		snapSequential(c, plan, &modelBudget)
+		verdictSequential(c, newVerdictPlan(seed))
+	}
+	for _, cr := range runs {
+		<-cr.done
+		childEnv, out, err := cr.env, cr.out, cr.err
 		replay := map[string]any{"op": "lookups-during-resets", "child_env": childEnv, "rerun": childEnv + " .bin/c11",
 			"what": "one goroutine installs the list versions of newSnapPlan(seed), four look up; see snapChild"}
 		var res snapResult
@@ -2744,7 +2833,7 @@ func snapshotCampaign(c *runner, rng *rand.Rand, procs, scale int, modelBudget i
 		for k, n := range res.Counts {
 			c.r.Distribution[k] += n
 		}
-		c.r.Case("lookups-during-resets "+childEnv, res.Counts["snap.reset.lookups_overlapping_an_install"] > 0)
+		c.r.Case("lookups-during-resets "+childEnv, res.Counts["snap.reset.overlapping_versions_with_different_answers:hashes"] > 0)
 	}
 }
 
@@ -2857,7 +2946,10 @@ func main() {
 		"base x depth x listed-parent x qtype grid; suffixrule: exhaustive private rule x {rule, parent, hosts below} x listed-parent " +
 		"x qtype grid; snapshot: versions of one list differing in the number of names under each of 1-44 hash prefixes, installed by " +
 		"Storage.Reset / Filter.Refresh while Storage.Hashes, MatchByPrefix, TXT questions through the stack and Storage.Matches run in " +
-		"child processes (GOMAXPROCS default, 2, 1, 4): every answer must be the exact answer of a version in force during the call; " +
+		"child processes (GOMAXPROCS default, 2, 1, 4; up to four at a time): every answer must be the exact answer of a version in force " +
+		"during the call; one version of every plan has fewer names than the widest under every listed prefix and the two take turns, " +
+		"each phase runs until enough lookups have seen the map swapped between versions that answer them differently (counted per " +
+		"kind of lookup as snap.<phase>.overlapping_versions_with_different_answers:*, required > 0) or its time budget is spent; " +
 		"question: the same hosts in up to three lists behind a real filterstorage.Default and dnssvc.NewHandlers, asked in mixed case " +
 		"under eight combinations of the filtering group's switches, verdict read from the query log; " +
 		"a list case is non-trivial when it has a listed and an unlisted verdict and a " +
@@ -2938,8 +3030,22 @@ func main() {
 		"question.listed:" + string(filter.IDSafeBrowsing), "question.listed:" + string(filter.IDAdultBlocking),
 		"question.listed:" + string(filter.IDNewRegDomains), "question.none", "question.nothing_enabled", "txt.near_miss_name",
 		"wiring.restart", "wiring.install:fault", "wiring.install:ok", "wiring.group_question",
+		// Lookups that ran while the list went from one version to another that
+		// answers them differently: without them the snapshot campaign is blind.
+		"snap.plan.version_narrower_under_every_prefix",
+		"snap.reset.overlapping_versions_with_different_answers:hashes",
+		"snap.reset.overlapping_versions_with_different_answers:mbp",
+		"snap.reset.overlapping_versions_with_different_answers:matches",
+		"snap.refresh.overlapping_versions_with_different_answers:txt",
+		"snap.refresh.overlapping_versions_with_different_answers:hashes",
+		"snap.verdict-reset.overlapping_versions_with_different_answers:verdict",
+		"snap.verdict-refresh.overlapping_versions_with_different_answers:verdict",
 	} {
-		if r.Distribution[need] == 0 {
+		if r.Distribution[need] == 0 && strings.HasPrefix(need, "snap.") {
+			r.Disagree("coverage-lost:"+need, "no lookup of the snapshot campaign reached the class "+need+
+				": the phase is not run any more, its versions give the same answers, or no install ever landed inside a lookup "+
+				"(see snapRun.run in harness/cmd/c11)", nil)
+		} else if r.Distribution[need] == 0 {
 			r.Disagree("coverage-lost:"+need, "no case reached the class "+need+
 				": the public suffix list has changed, refresh bases/suffixRules in harness/cmd/c11", nil)
 		}
